@@ -19,6 +19,7 @@ MUTANTS = [
     ("C13-group-extends-in-place", "C13", GL, "            self.content.update({kept: content_discarded + content_kept, discarded: []})\n", "            content_kept[:0] = content_discarded\n            self.content.update({kept: content_kept, discarded: []})\n"),
     ("C10-imap-unordered-zipped-with-submit-order", "C10", QD, "        self.values_orders.update({feature: order for (feature, order) in all_orders})\n", "        self.values_orders.update(\n            {feature: order for feature, (_, order) in zip(self.quantitative_features, all_orders)}\n        )\n"),
     ("C10-transform-results-by-position", "C10", BD, "        X[[feature for feature, _ in all_transformed]] = DataFrame(\n            {feature: values for feature, values in all_transformed}, index=X.index\n        )\n", "        X[self.quantitative_features] = DataFrame(\n            {feature: values for feature, values in sorted(all_transformed)}, index=X.index\n        )\n"),
+    ("C10-nan-unique-set-comprehension", "C10", BD, "    # unique values\n    uniques = unique(x)\n\n    # filtering out nans\n    uniques = [u for u in uniques if notna(u)]\n", "    # unique values (filtering out nans)\n    uniques = list({u for u in x[notna(x)]})\n"),
     ("C04-interval-test-strict", "C04", BD, "    values_to_group = [df_feature <= value for value in feature_values if value != str_nan]\n", "    values_to_group = [df_feature < value for value in feature_values if value != str_nan]\n"),
     ("C05-unknown-values-not-checked-after-default", "C05", BD, "            assert len(unexpected) == 0, (\n                \" - [Discretizer] Unexpected value! The ordering for values: \"", "            assert len(unexpected) == 0 or self.str_default is not None, (\n                \" - [Discretizer] Unexpected value! The ordering for values: \""),
     ("C06-inf-not-restored-on-load", "C06", SER, "    if value == \"numpy.inf\":  # numpy.inf value\n        output = inf\n", "    if value == \"numpy.inf\":  # numpy.inf value\n        output = 1.7976931348623157e308\n"),
